@@ -196,26 +196,37 @@ func EntryHash(cid factom.Bytes32, e Entry) factom.Bytes32 {
 // HashOn is EntryHash with a chain selector.
 func HashOn(sel int, e Entry) factom.Bytes32 { return EntryHash(chainID(sel), e) }
 
+// EffectiveMinutes clamps the entries' minutes to 1..10 and makes them
+// non-decreasing (the order an entry block can represent).
+func EffectiveMinutes(entries []Entry) []int {
+	out := make([]int, len(entries))
+	cur := 1
+	for i, e := range entries {
+		m := e.Minute
+		if m < cur {
+			m = cur
+		}
+		if m > 10 {
+			m = 10
+		}
+		cur = m
+		out[i] = m
+	}
+	return out
+}
+
 // eblockBinary builds the raw entry block and returns it with its keymr.
 func eblockBinary(cid factom.Bytes32, h uint32, entries []Entry) ([]byte, factom.Bytes32, [][]byte) {
 	var objects [][]byte
 	var raws [][]byte
 	curMin := 0
+	mins := EffectiveMinutes(entries)
 	for i, e := range entries {
-		m := e.Minute
-		if m < 1 {
-			m = 1
-		}
-		if m > 10 {
-			m = 10
-		}
+		m := mins[i]
 		if i > 0 && m > curMin {
 			mk := make([]byte, 32)
 			mk[31] = byte(curMin)
 			objects = append(objects, mk)
-		}
-		if m < curMin {
-			m = curMin // keep non-decreasing
 		}
 		curMin = m
 		raw := EntryBinary(cid, e)
